@@ -106,6 +106,16 @@ Example C08_example_finalize :
   /\ finalize 2 o (VTuple [VInt 1; VIter [] true]) = TooLarge
   /\ finalize 2 o (VDict [(VInt 1, VList [VInt 1; VInt 2; VInt 3])]) = TooLarge.
 Proof. vm_compute. repeat split. Qed.
+(* dictionary KEYS are finalised and limited like every other node: an oversized tuple key, an
+   endless iterator as a key; a key that stays a tuple is fine, one that becomes a list cannot be hashed *)
+Example C08_example_keys :
+  let z := VInt 0 in
+  finalize 4 {| tuples_to_lists := false; sets_to_lists := false |} (VDict [(VTuple [z; z; z; z; z], VInt 1)]) = TooLarge
+  /\ finalize 4 {| tuples_to_lists := true; sets_to_lists := false |} (VDict [(VIter [] true, VInt 1)]) = TooLarge
+  /\ finalize 4 {| tuples_to_lists := false; sets_to_lists := false |} (VDict [(VTuple [z; z], VInt 1)])
+     = Ok (VDict [(VTuple [z; z], VInt 1)])
+  /\ finalize 4 {| tuples_to_lists := true; sets_to_lists := false |} (VDict [(VTuple [z; z], VInt 1)]) = Unhashable.
+Proof. vm_compute. repeat split. Qed.
 Example C08_example_quota :
   limit_memory_usage 100 [(1, 60); (1, 41)] = true /\ limit_memory_usage 101 [(1, 60); (1, 41)] = false
   /\ limit_memory_usage 100 [(3, 50); (- 2, 50)] = true   (* early exit on a prefix *)
